@@ -63,11 +63,11 @@ REMINIMISING = {"asymmetric_errors", "profile_sigma", "profile_cl_arrows", "prof
 
 def floors(tier):
     return {
-        "comparisons": {"drift.parameter_values": 150, "drift.cost": 150, "drift.parameter_errors": 150, "did_fit": 150, "fixed-limited": 150, "minimizer==graph": 150, "idempotent": 40},
+        "comparisons": {"drift.parameter_values": 150, "drift.cost": 150, "drift.parameter_errors": 150, "did_fit": 150, "fixed-limited": 150, "minimizer==graph": 150, "idempotent": 40, "drift.after-failed-query": 10},
         "ops": [q for q in QUERIES],
         "reach": ["%s:%s" % a for a in ANCHORS],
         "sets": {"query_bigrams": 80},
-        "strata": ["iminuit", "scipy", "fixed", "limited", "xy", "indexed", "hist"],
+        "strata": ["iminuit", "scipy", "fixed", "limited", "xy", "indexed", "hist", "fault-injected:iminuit", "fault-injected:scipy", "fault-injected-before-first-read:iminuit", "fault-injected-before-first-read:scipy"],
         "distinct_nontrivial": 40,
     }
 
@@ -130,7 +130,34 @@ def gen_case(rng, tier, idx, shard, nshards):
                 seen = True
             w2.append(q)
         word = w2
-    return {"property": "C08", "spec": spec, "setup": setup, "fixed": fixed, "limited": limited, "word": word, "arg_seed": int(rng.integers(0, 2**31))}
+    case = {"property": "C08", "spec": spec, "setup": setup, "fixed": fixed, "limited": limited, "word": word, "arg_seed": int(rng.integers(0, 2**31))}
+    if gi % 5 == 4:
+        # fault injection: the cost function raises at its k-th evaluation during one query (a model function that raises far from
+        # the optimum): the request has no answer, but the fit must be back where it was
+        case["fault"] = {"index": int(rng.integers(0, len(word))), "call": int(rng.choice([1, 2, 3, 5, 8, 13, 21, 34, 55]))}
+        if (gi // 10) % 2 == 1:
+            case["fault"].update(early=True, query=EARLY_QUERIES[(gi // 20) % len(EARLY_QUERIES)], call=int(rng.choice([1, 2, 3, 5, 8, 13])))
+    return case
+
+
+class InjectedFault(ArithmeticError):
+    pass
+
+
+class FaultyHandle:
+    """the minimiser's cost function handle; raises once, at its k-th evaluation away from the optimum p0 (the model is known to be
+    defined at the optimum itself: evaluations there, e.g. the write-back that ends an excursion, are passed through uncounted)"""
+
+    def __init__(self, f, k, p0):
+        self.f, self.k, self.n, self.p0 = f, k, 0, np.array(p0, dtype=float)
+
+    def __call__(self, *a):
+        if len(a) == len(self.p0) and np.array_equal(np.array(a, dtype=float), self.p0):
+            return self.f(*a)
+        self.n += 1
+        if self.n == self.k:
+            raise InjectedFault("injected at cost evaluation %d away from the optimum" % self.k)
+        return self.f(*a)
 
 
 # ------------------------------------------------------------------ queries
@@ -278,6 +305,77 @@ def snapshot(fit):
     }
 
 
+EARLY_QUERIES = ["cov_mat", "cor_mat", "hessian", "hessian_inv", "parameter_errors", "result_dict", "report", "error_band", "asymmetric_errors", "profile_default"]
+
+
+def early_fault(ctx, case, fit, names, free, minimizer):
+    mini = fit._fitter.minimizer
+    # do_fit() itself has asked for the uncertainties, so covariance / Hessian are cached; fixing and releasing a parameter leaves the fit
+    # at its optimum (did_fit stays True) with cold caches, as after any configuration change that does not move the parameters
+    try:
+        fit.fix_parameter(free[0])
+        fit.release_parameter(free[0])
+    except Exception:
+        ctx.discard("fix-release-failed")
+        return False
+    if not fit.did_fit:
+        ctx.discard("fix-release-cleared-did_fit")
+        return False
+    # positions and cost as the graph holds them; none of these reads makes the backend compute anything
+    p0 = np.array(fit.parameter_values, dtype=float)
+    c0 = float(fit.cost_function_value)
+    pm0 = np.array(mini.parameter_values, dtype=float)
+    fixed0 = dict(fit._fitter.fixed_parameters)
+    q = case["fault"]["query"]
+    if q == "error_band" and case["spec"]["type"] != "xy":
+        q = "cov_mat"
+    ctx.op(q)
+    genuine = mini._func_handle
+    mini._func_handle = FaultyHandle(genuine, case["fault"]["call"], pm0)
+    rng = np.random.default_rng(case["arg_seed"])
+    tmpdir = tempfile.mkdtemp(prefix="verif-c08-")
+    raised = None
+    try:
+        with time_limit(60.0):
+            if q == "parameter_errors":
+                fit.parameter_errors
+            else:
+                run_query(q, fit, rng, tmpdir, free)
+    except InjectedFault as e:
+        raised = e
+    except OpTimeout:
+        ctx.discard("query-timeout")
+        return False
+    except Exception:
+        mini._func_handle = genuine
+        ctx.discard("early-query-failed-otherwise")
+        return False
+    finally:
+        mini._func_handle = genuine
+        shutil.rmtree(tmpdir, ignore_errors=True)
+    if raised is None:
+        ctx.note("fault-not-reached-or-swallowed")
+        return False
+    ctx.stratum("fault-injected-before-first-read:" + minimizer)
+    ctx.add_to_set("faulted_queries", "first:" + q)
+    d = {"query": q, "fault": case["fault"], "first_request_after_do_fit": True}
+    try:
+        pg = np.array(fit.parameter_values, dtype=float)
+        cg = float(fit.cost_function_value)
+        pm = np.array(mini.parameter_values, dtype=float)
+        err = np.array(fit.parameter_errors, dtype=float)  # the yardstick; computed only now, with the genuine cost function
+    except Exception:
+        ctx.violation(None, "state-readable-after-failed-query", dict(d, traceback=fmt_exc()))
+        return True
+    sig = np.where(np.isfinite(err) & (err > 0), err, np.abs(p0) + 1.0)
+    ptol, ctol = (1e-2, 1e-3) if minimizer == "iminuit" else (1e-1, 1e-2)
+    devg = np.abs(pg - p0) / sig
+    ctx.check("drift.after-failed-query", bool(np.all(devg <= ptol)) and abs(cg - c0) <= ctol, lambda: dict(d, before=p0, after=pg, deviation_in_sigma=devg, tolerance=ptol, cost_before=c0, cost_after=cg))
+    ctx.check("minimizer==graph.after-failed-query", bool(np.all(np.abs(pm - pg) <= 1e-12 * np.maximum(np.abs(pg), 1e-300) + 1e-300)), lambda: dict(d, minimizer=pm, graph=pg))
+    ctx.check("fixed-limited.after-failed-query", dict(fit._fitter.fixed_parameters) == fixed0 and [bool(mini.is_fixed(n)) for n in names] == [n in fixed0 for n in names], lambda: dict(d, fixed_before=fixed0, fixed_after=dict(fit._fitter.fixed_parameters), minimizer_fixed=[bool(mini.is_fixed(n)) for n in names]))
+    return True
+
+
 def run_case(ctx, case):
     ctx.reseed_legacy()
     spec = case["spec"]
@@ -299,6 +397,9 @@ def run_case(ctx, case):
         return False
     names = list(fit.parameter_names)
     free = [n for n in names if n not in case["fixed"]]
+    if case.get("fault") and case["fault"].get("early"):
+        # the very first request after the fit (nothing cached yet: covariance / Hessian are computed now) meets a cost function that raises
+        return early_fault(ctx, case, fit, names, free, minimizer)
     s0 = snapshot(fit)
     if not np.all(np.isfinite(s0["p"])) or not np.isfinite(s0["cost"]) or np.any(s0["err"][[names.index(f) for f in free]] <= 0):
         ctx.discard("fit-result-not-usable")
@@ -310,7 +411,11 @@ def run_case(ctx, case):
             ctx.discard("optimum-on-limit")
             return False
     sig = np.where(s0["err"] > 0, s0["err"], 1.0)
-    ptol, ctol = (1e-2, 1e-3) if minimizer == "iminuit" else (5e-2, 5e-3)
+    # "unchanged up to the minimizer tolerance": one converged iminuit state is within 1e-2 sigma / 1e-3 in cost of the optimum, one converged scipy
+    # state within 5e-2 sigma / 5e-3 (C05).  A query that minimises again (scipy's generic asymmetric errors start with minimize()) ends in another
+    # converged state: two of them may differ by the sum, and the numerical Hessian taken there by a like amount (observed 0.0575 sigma, 5.5 %)
+    ptol, ctol = (1e-2, 1e-3) if minimizer == "iminuit" else (1e-1, 1e-2)
+    etol = 3e-2 if minimizer == "iminuit" else 1e-1
     rng = np.random.default_rng(case["arg_seed"])
     tmpdir = tempfile.mkdtemp(prefix="verif-c08-")
     nontrivial = bool(case["fixed"] or case["limited"])
@@ -326,13 +431,37 @@ def run_case(ctx, case):
             if q == prev_q:
                 rng.bit_generator.state = prev_rng_state
             state_before = rng.bit_generator.state
+            fault = case.get("fault") if case.get("fault") and case["fault"]["index"] == i else None
+            mini_obj = fit._fitter.minimizer
+            genuine_handle = mini_obj._func_handle
+            if fault:
+                mini_obj._func_handle = FaultyHandle(genuine_handle, fault["call"], mini_obj.parameter_values)
             try:
                 with time_limit(60.0):
                     ans = run_query(q, fit, rng, tmpdir, free)
             except OpTimeout:
+                mini_obj._func_handle = genuine_handle
                 ctx.discard("query-timeout")
                 return nontrivial
+            except InjectedFault as e:
+                mini_obj._func_handle = genuine_handle
+                ctx.stratum("fault-injected:" + minimizer)
+                ctx.add_to_set("faulted_queries", q)
+                try:
+                    pg = np.array(fit.parameter_values, dtype=float)
+                    cg = float(fit.cost_function_value)
+                    pm = np.array(mini_obj.parameter_values, dtype=float)
+                except Exception:
+                    ctx.violation(None, "state-readable-after-failed-query", {"query": q, "index": i, "fault": fault, "traceback": fmt_exc()})
+                    return nontrivial
+                devg = np.abs(pg - s0["p"]) / sig
+                ctx.check("drift.after-failed-query", bool(np.all(devg <= ptol)) and abs(cg - s0["cost"]) <= ctol, lambda: {"query": q, "index": i, "word": case["word"][: i + 1], "fault": fault, "before": s0["p"], "after": pg, "deviation_in_sigma": devg, "tolerance": ptol, "cost_before": s0["cost"], "cost_after": cg})
+                scale_f = np.maximum(np.abs(pg), 1e-300)
+                ctx.check("minimizer==graph.after-failed-query", bool(np.all(np.abs(pm - pg) <= 1e-12 * scale_f + 1e-300)), lambda: {"query": q, "index": i, "fault": fault, "minimizer": pm, "graph": pg})
+                ctx.check("fixed-limited.after-failed-query", dict(fit._fitter.fixed_parameters) == s0["fixed"] and {k: tuple(v) for k, v in fit._fitter.limited_parameters.items()} == s0["limited"] and [bool(mini_obj.is_fixed(n)) for n in names] == [n in s0["fixed"] for n in names], lambda: {"query": q, "index": i, "fault": fault, "fixed_before": s0["fixed"], "fixed_after": dict(fit._fitter.fixed_parameters), "minimizer_fixed": [bool(mini_obj.is_fixed(n)) for n in names]})
+                return True
             except Exception as e:
+                mini_obj._func_handle = genuine_handle
                 # numerical failure inside an excursion far from the optimum (cost infinite, nan Hessian; raised by numpy / scipy /
                 # numdifftools / iminuit or by the nan-symmetry assertion on the numerical Hessian): the query has no answer; the
                 # statement is about answers, so the case is not judged (counted)
@@ -343,11 +472,23 @@ def run_case(ctx, case):
                     tb = tb.tb_next
                 inner = tb.tb_frame.f_code.co_filename
                 numerical = "site-packages" in inner or (isinstance(e, AssertionError) and tb.tb_frame.f_code.co_name == "hessian")
-                if q in REMINIMISING and numerical and isinstance(e, (AssertionError, IndexError, np.linalg.LinAlgError, FloatingPointError, ZeroDivisionError, OverflowError, RuntimeError)):
-                    ctx.discard("re-minimising-query-failed-numerically")
+                if numerical and isinstance(e, (AssertionError, IndexError, np.linalg.LinAlgError, FloatingPointError, ZeroDivisionError, OverflowError, RuntimeError)):
+                    # no answer, but a request all the same: the values the model is evaluated with must be back where they were
+                    # (read from the graph only: asking the minimiser for more results could fail again)
+                    try:
+                        pg = np.array(fit.parameter_values, dtype=float)
+                        devg = np.abs(pg - s0["p"]) / sig
+                        cg = float(fit.cost_function_value)
+                        ctx.check("drift.after-failed-query", bool(np.all(devg <= ptol)) and abs(cg - s0["cost"]) <= ctol, lambda: {"query": q, "index": i, "word": case["word"][: i + 1], "exception": repr(e), "before": s0["p"], "after": pg, "deviation_in_sigma": devg, "tolerance": ptol, "cost_before": s0["cost"], "cost_after": cg})
+                    except Exception:
+                        pass
+                    ctx.discard("query-failed-numerically")
                     return nontrivial
                 ctx.violation(None, "query.no-exception", {"query": q, "index": i, "traceback": fmt_exc()})
                 return nontrivial
+            mini_obj._func_handle = genuine_handle
+            if fault:
+                ctx.note("fault-not-reached-or-swallowed")
             nv = sum(ctx._wit_per_key.values())
             s = snapshot(fit)
             d = {"query": q, "index": i, "word": case["word"][: i + 1]}
@@ -356,7 +497,7 @@ def run_case(ctx, case):
             ctx.worst["drift_sigma_" + minimizer] = max(ctx.worst.get("drift_sigma_" + minimizer, 0.0), float(dev.max()))
             ctx.check("drift.cost", abs(s["cost"] - s0["cost"]) <= ctol, lambda: dict(d, before=s0["cost"], after=s["cost"], tolerance=ctol))
             fi = [names.index(f) for f in free]
-            ctx.check("drift.parameter_errors", bool(np.all(np.abs(s["err"] - s0["err"])[fi] <= 3e-2 * s0["err"][fi])), lambda: dict(d, before=s0["err"], after=s["err"]))
+            ctx.check("drift.parameter_errors", bool(np.all(np.abs(s["err"] - s0["err"])[fi] <= etol * s0["err"][fi])), lambda: dict(d, before=s0["err"], after=s["err"]))
             ctx.check("did_fit", s["did_fit"] == s0["did_fit"], lambda: dict(d, before=s0["did_fit"], after=s["did_fit"]))
             ctx.check("fixed-limited", s["fixed"] == s0["fixed"] and s["limited"] == s0["limited"], lambda: dict(d, before=[s0["fixed"], s0["limited"]], after=[s["fixed"], s["limited"]]))
             scale = np.maximum(np.abs(s["p"]), 1e-300)
